@@ -73,6 +73,24 @@ impl Property for C08 {
                 _ => Ev::Crash,
             }
         });
+        // now and then a long-lived node: more than a thousand writes of one hot key over three segments, the
+        // first write of a cold shard in the newest of them (so that segments replay in an order that is not the
+        // order of the hot key's stamps), then a crash and further writes
+        let events: Vec<Ev> = if src.chance(1, 400) {
+            rep.probe("long_history_over_1024_deltas");
+            let (a, bb, c) = (500 + src.below(200) as usize, 300 + src.below(200) as usize, 60 + src.below(100) as usize);
+            let mut ev: Vec<Ev> = Vec::new();
+            let mut u = 10_000u64;
+            let mut hot = |n: usize, ev: &mut Vec<Ev>| for _ in 0..n { u += 1; ev.push(Ev::Write(vec![b("SET"), b("k0"), b(&format!("v{}", u))])); };
+            hot(a, &mut ev); ev.push(Ev::Flush);
+            hot(bb, &mut ev); ev.push(Ev::Flush);
+            ev.push(Ev::Write(vec![b("SET"), b("k1"), b("cold")]));
+            hot(c, &mut ev); ev.push(Ev::Flush);
+            ev.push(Ev::Crash);
+            hot(2, &mut ev); ev.push(Ev::GossipToWitness);
+            ev.extend(events.into_iter().take(6));
+            ev
+        } else { events };
         let seed = src.u64_any();
         let trace = ctx.trace;
         struct Out { viol: Option<(String, String)>, log: Vec<String>, probes: Vec<&'static str>, evals: u64, crashes: u64 }
